@@ -6,6 +6,10 @@
 
 mod plans;
 
+// Counting allocator used by codecsim's bounded-allocation oracle (C13-3); it only counts.
+#[global_allocator]
+static ALLOC: codecsim::allocguard::Guard = codecsim::allocguard::Guard;
+
 use simcore::runner::{replay_main, run_check, worker_main};
 use simcore::{Sim, Tier};
 
@@ -13,6 +17,7 @@ fn lookup(name: &str) -> Option<Box<dyn Sim>> {
 	match name {
 		"lnsim" => Some(Box::new(lnsim::LnSim)),
 		"transportsim" => Some(Box::new(transportsim::TransportSim)),
+		"codecsim" => Some(Box::new(codecsim::CodecSim)),
 		"blocksyncsim" => Some(Box::new(blocksyncsim::BlockSyncSim)),
 		_ => None,
 	}
